@@ -375,6 +375,7 @@ func c17Replay(e *core.Env, data json.RawMessage) (bool, string) {
 func init() {
 	core.Register(&core.Check{
 		ID: "C17", Level: "model_checking", Run: c17Run, Replay: c17Replay,
+		Added:       "amounts 2^64+1, 2^64, 1e15+1e-8; CSV must not depend on display flags; 700-row tables: line widths on the free-running binary + race detector",
 		QuickBudget: 90 * time.Second, ThoroughBudget: 14 * time.Minute,
 		Rule: "tables built through the real table API with every ordered pair (2 rows) and triple (3 columns) of 45 signed amounts (1e-8 .. 1e15, rounding boundaries x.5, 999.5, 999.95, 0.0005 for -k) x digits {0,1,2,3,8} x thousands on/off x ASCII/umlaut/CJK/long names x indents; " +
 			"the text rendering is parsed with a geometry-checking reader and every numeric cell compared with a big-rational reference formatter; CSV compared exactly; command level: amounts placed in journals, balance text vs --csv row by row",
